@@ -111,3 +111,105 @@ def to_form(trajs, form, rng):
     if form == 'statetraj':
         return mh.StateTraj(as_arrays(trajs, rng))
     return as_arrays(trajs, rng)
+
+
+# --------------------------------------------------------------------------- matrices (C04, C14)
+
+def wielandt(n):
+    """cycle 0→1→…→n-1→0 plus the edge n-1→1: primitive with exponent exactly (n-1)^2+1"""
+    c = [[0] * n for _ in range(n)]
+    for i in range(n - 1):
+        c[i][i + 1] = 1
+    c[n - 1][0] = 1
+    if n > 1:
+        c[n - 1][1] = 1
+    return c
+
+
+def block_diag(blocks):
+    n = sum(len(b) for b in blocks)
+    m = [[0] * n for _ in range(n)]
+    o = 0
+    for b in blocks:
+        for i, r in enumerate(b):
+            for j, v in enumerate(r):
+                m[o + i][o + j] = v
+        o += len(b)
+    return m
+
+
+def rand_irreducible(rng, n, aperiodic=True):
+    c = [[0] * n for _ in range(n)]
+    perm = list(range(n))
+    rng.shuffle(perm)
+    for a, b in zip(perm, perm[1:] + perm[:1]):
+        c[a][b] = rng.randint(1, 3)
+    for _ in range(rng.randint(0, n)):
+        c[rng.randrange(n)][rng.randrange(n)] += rng.randint(1, 3)
+    if aperiodic:
+        i = rng.randrange(n)
+        c[i][i] += 1
+    return c
+
+
+def count_matrices(tier, rng, boost=1):
+    """yields (count matrix, tag); rows are normalised by the caller"""
+    import itertools
+    for c in itertools.product(range(3), repeat=4):
+        yield [list(c[:2]), list(c[2:])], 'enum2'
+    k = 0
+    for c in itertools.product(range(3), repeat=9):
+        k += 1
+        if tier == 'quick' and k % 6:
+            continue
+        yield [list(c[0:3]), list(c[3:6]), list(c[6:9])], 'enum3'
+    for n in range(2, 9):
+        yield wielandt(n), 'wielandt'
+        w = wielandt(n)
+        p = list(range(n))
+        rng.shuffle(p)
+        yield [[w[p[i]][p[j]] for j in range(n)] for i in range(n)], 'wielandt_perm'
+        cyc = [[1 if j == (i + 1) % n else 0 for j in range(n)] for i in range(n)]
+        yield cyc, 'cycle'
+    nrand = {'quick': 400, 'thorough': 6000, 'search': 1500}[tier] * boost
+    for _ in range(nrand):
+        kind = rng.choice(['irr', 'irr_per', 'two_closed', 'tie', 'transient', 'absorbing', 'unvisited', 'never_entered', 'mixed'])
+        n = rng.randint(2, 8)
+        if kind == 'irr':
+            m = rand_irreducible(rng, n)
+        elif kind == 'irr_per':
+            m = rand_irreducible(rng, n, aperiodic=False)
+        elif kind == 'two_closed':
+            a = rng.randint(1, max(1, n - 1))
+            m = block_diag([rand_irreducible(rng, a), rand_irreducible(rng, max(1, n - a))])
+        elif kind == 'tie':
+            a = rng.randint(1, 3)
+            m = block_diag([rand_irreducible(rng, a), rand_irreducible(rng, a)] + ([rand_irreducible(rng, 1)] if rng.random() < .3 else []))
+        elif kind == 'transient':
+            a = rng.randint(1, max(1, n - 1))
+            m = block_diag([rand_irreducible(rng, a), rand_irreducible(rng, max(1, n - a))])
+            m[rng.randrange(a)][a + rng.randrange(len(m) - a)] += 1      # leak from the first block into the second
+        elif kind == 'absorbing':
+            m = block_diag([rand_irreducible(rng, max(1, n - 1)), [[1]]])
+            if rng.random() < 0.5:
+                m[rng.randrange(len(m) - 1)][len(m) - 1] += 1
+        elif kind == 'unvisited':
+            m = block_diag([rand_irreducible(rng, max(1, n - 1)), [[0]]])
+        elif kind == 'never_entered':
+            m = block_diag([[[0]], rand_irreducible(rng, max(1, n - 1))])
+            m[0][1 + rng.randrange(len(m) - 1)] = 1
+        else:
+            m = [[rng.choice([0, 0, 1, 2]) for _ in range(n)] for _ in range(n)]
+        if rng.random() < 0.5:
+            p = list(range(len(m)))
+            rng.shuffle(p)
+            m = [[m[p[i]][p[j]] for j in range(len(m))] for i in range(len(m))]
+        yield m, kind
+
+
+def normalise_counts(c):
+    """float matrix the way a user would build it: counts / row sums (zero rows stay zero)"""
+    a = np.array(c, dtype=np.float64)
+    rs = a.sum(axis=1, keepdims=True)
+    rs[rs == 0] = 1
+    return a / rs
